@@ -60,8 +60,8 @@ pub fn hs_strategy() -> BoxedStrategy<Hs> {
 }
 
 pub fn flow_strategy(max: u32, max_ops: usize) -> BoxedStrategy<FlowScript> {
-    (hs_strategy(), len_strategy(max), proptest::collection::vec(op_strategy(max), 0..=max_ops), ending_strategy(max))
-        .prop_map(|(hs, first, ops, ending)| FlowScript { hs, first, ops, ending })
+    (hs_strategy(), len_strategy(max), proptest::collection::vec(op_strategy(max), 0..=max_ops), ending_strategy(max), prop_oneof![3 => Just(0u16), 1 => 20u16..250])
+        .prop_map(|(hs, first, ops, ending, slow_reader_ms)| FlowScript { hs, first, ops, ending, slow_reader_ms })
         .boxed()
 }
 
@@ -123,6 +123,9 @@ fn classify(c: &Case, reports: &[(usize, usize, bool)]) -> (bool, Vec<String>) {
                 _ => "other",
             }
         ));
+    }
+    if c.flows.iter().any(|f| f.slow_reader_ms > 0) {
+        labels.push("slow-reader-at-close".into());
     }
     labels.push(format!("flows:{}", match c.flows.len() { 1 => "1", 2..=4 => "2-4", 5..=8 => "5-8", _ => ">8" }));
     if c.tap.is_some() {
